@@ -205,6 +205,35 @@ var jsonldCandidates = []string{
 	`{"@graph":[{"@graph":[{"@id":"http://a","http://p":1}]}]}`,
 }
 
+// top-level scalars (a string that reads like an address is taken for the address of a remote document), and lists of many units of
+// which one is rejected - at the start, in the middle, at the end
+func init() {
+	jsonldCandidates = append(jsonldCandidates, `"urn:uuid:6f1c"`, `"mailto:someone@example.org"`, `"./dir/api.jsonld#/web:api"`, `"acv-demo:no/such"`, `"no colon here"`, `"http://localhost:1/nothing"`, `5`, `true`, `null`, `1.5e3`)
+	unit := func(k int) string {
+		return fmt.Sprintf(`{"@id":"http://ex.org/u/%d","@type":["http://ex.org/v#T"],"http://ex.org/v#p0":[{"@value":"x%d"}]}`, k, k)
+	}
+	for _, n := range []int{15, 16, 17, 40, 300} {
+		for _, bad := range []string{`{"@id":5}`, `{"@id":"http://ex.org/u/bad","@type":5}`, `{"@context":5,"@id":"http://ex.org/u/bad"}`} {
+			for _, at := range []int{0, n / 2, n - 1} {
+				var us []string
+				for k := 0; k < n; k++ {
+					if k == at {
+						us = append(us, bad)
+					} else {
+						us = append(us, unit(k))
+					}
+				}
+				jsonldCandidates = append(jsonldCandidates, "["+strings.Join(us, ",")+"]")
+			}
+		}
+		var us []string
+		for k := 0; k < n; k++ {
+			us = append(us, unit(k))
+		}
+		jsonldCandidates = append(jsonldCandidates, "["+strings.Join(us, ",")+"]", `{"@graph":[`+strings.Join(us, ",")+`]}`)
+	}
+}
+
 func classifyJsonLd(text string) (rejected bool, ok bool) {
 	var doc any
 	dec := json.NewDecoder(strings.NewReader(text))
